@@ -185,6 +185,18 @@ def judge_c16(plan, result):
                 viol.append({"inv": "J2", "sig": "C16/J2/layer_mapping" + _alias_sfx(passed, mutated, obj),
                              "step": ev["i"],
                              "detail": {"obj": obj, "got": res, "want": want}})
+            elif res.get("rev"):
+                # module -> layer as the mapping answers it, for names supplied to exactly one layer
+                count = {}
+                for l, ids in want:
+                    for i in set(ids):
+                        count[i] = count.get(i, 0) + 1
+                wrong = [[i, l, res["rev"].get(i)] for l, ids in want for i in ids
+                         if count[i] == 1 and i in res["rev"] and res["rev"][i] != l]
+                if wrong:
+                    viol.append({"inv": "J2", "sig": "C16/J2/layer_mapping/layer-of-supplied-module"
+                                 + _alias_sfx(passed, mutated, obj), "step": ev["i"],
+                                 "detail": {"obj": obj, "wrong": wrong[:4], "want": want}})
         elif op["op"] == "getitem" and is_arch:
             want = dict(mdl.listing()).get(op["k"])
             if want is None:
